@@ -67,6 +67,10 @@ def arc_job(job):
         rx, cls = 0.0, "zeroradius"
     if s == e:
         cls = "coincident"
+    if mode == "tiny":
+        # distinct end points a 10^-4 of a radius apart (extent of a few thousandths of a degree)
+        E = (S[0] + 0.7e-4 * r * sc, S[1] - 0.4e-4 * r * sc)
+        cls = "tiny"
     rec = {"k": "ok", "t": "", "class": cls, "r": r, "RR": RR, "o": list(O), "s": list(s), "e": list(e),
            "large": large, "sweep": sweep, "segs": [], "line": 0, "endexact": 0, "startok": 1,
            "tol": int(RR * 0.0003) + 3}
@@ -114,6 +118,11 @@ def jobs_for(tier, rng):
                 for large, sweep in itertools.product((0, 1), repeat=2):
                     jobs.append((r, (0, 0), s, e, large, sweep, 1, 1, rng.choice([0, 90, "345"]),
                                  rng.choice([0, -2, 2]), mode))
+                    if mode in ("half", "tenth"):
+                        # too small AND not a circle AND rotated: the correction has to measure the half
+                        # chord in the ellipse's own frame
+                        jobs.append((r, (0, 0), s, e, large, sweep, rng.choice([2, 3]), rng.choice([1, 2]),
+                                     rng.choice([90, "345", 450, -90]), 0, mode))
         for s in pts[:6]:
             jobs.append((r, (0, 0), s, s, 1, 1, 1, 1, 0, 0, "exact"))
             # coincident endpoints win over every other degenerate case (F.6.2 comes first)
@@ -122,6 +131,10 @@ def jobs_for(tier, rng):
                              rng.choice([0, 90, "345"]), 0, mode))
         for s in pts[:4]:
             jobs.append((r, (0, 0), s, pts[3], 0, 1, 1, 1, 0, 0, "neg"))
+        for s in pts[:8]:
+            for sweep in (0, 1):
+                jobs.append((r, (0, 0), s, s, 0, sweep, rng.choice([1, 2]), 1, rng.choice([0, 90, "345"]),
+                             rng.choice([0, -3, 3]), "tiny"))
         for s in pts[:6]:
             for e in pts[2:5]:
                 for large, sweep in itertools.product((0, 1), repeat=2):
